@@ -13,6 +13,7 @@ case $VARIANT in
   asan) SAN="-fsanitize=address -fsanitize=null,bounds,object-size,return,unreachable,vla-bound -fno-omit-frame-pointer" ; OPT="-O1 -g";;
   tsan) SAN="-fsanitize=thread -fno-omit-frame-pointer" ; OPT="-O1 -g";;
   plain) SAN="" ; OPT="-O1 -g";;
+  cov) SAN="-fsanitize=address -fno-omit-frame-pointer -fprofile-instr-generate -fcoverage-mapping" ; OPT="-O1 -g";;     # reach measurement only (tools/coverage.sh)
   *) echo "bad variant" >&2; exit 2;;
 esac
 export ASAN_OPTIONS=detect_leaks=0
